@@ -30,6 +30,9 @@ type History struct {
 	DB   objects.Store
 	Sums [][]byte       // Sums[c-1] is the sum of abstract commit c
 	ids  map[string]int // sum -> abstract commit
+	// InsertSeeded: walks start from an empty queue fed through Insert (every start twice) and are offered
+	// visited commits again while they run; the statement is the same: every ancestor exactly once
+	InsertSeeded bool
 }
 
 func NewHistory() *History {
@@ -116,8 +119,18 @@ func (h *History) Walk(from []int, limit int) (seq []int, exceeded bool, err err
 		}
 		sums = append(sums, s)
 	}
-	q, err := ref.NewCommitsQueue(h.DB, sums)
-	if err != nil {
+	var q *ref.CommitsQueue
+	if h.InsertSeeded {
+		// the way pkg/prune starts its walk: an empty queue and one Insert per ref - two refs may name one commit
+		if q, err = ref.NewCommitsQueue(h.DB, nil); err != nil {
+			return nil, false, err
+		}
+		for _, s := range append(append([][]byte{}, sums...), sums...) {
+			if err = q.Insert(s); err != nil {
+				return nil, false, err
+			}
+		}
+	} else if q, err = ref.NewCommitsQueue(h.DB, sums); err != nil {
 		return nil, false, err
 	}
 	seq = []int{}
@@ -128,6 +141,12 @@ func (h *History) Walk(from []int, limit int) (seq []int, exceeded bool, err err
 		}
 		if err != nil {
 			return seq, false, err
+		}
+		if h.InsertSeeded && len(seq)%3 == 0 {
+			// a commit the walk has visited is offered again (another ref is found to name it)
+			if err = q.Insert(sum); err != nil {
+				return seq, false, err
+			}
 		}
 		seq = append(seq, h.ID(sum))
 		if len(seq) > limit {
